@@ -173,7 +173,9 @@ class DatasetSpec(object):
         d = Path(d)
         d.mkdir(parents=True, exist_ok=True)
         for name, arr in self.files().items():
-            if self.notes.get('fortran') and getattr(arr, 'ndim', 1) == 2 and not name.startswith('pc_') and 'feature' not in name:
+            if self.notes.get('fortran') == 'all' and getattr(arr, 'ndim', 1) >= 2:
+                arr = np.asfortranarray(arr)        # every multi-dimensional file column-major (templates, features too)
+            elif self.notes.get('fortran') and getattr(arr, 'ndim', 1) == 2 and not name.startswith('pc_') and 'feature' not in name:
                 arr = np.asfortranarray(arr)        # column-major .npy files, as MATLAB exporters write them
             np.save(d / name, arr)
         dat_paths = []
